@@ -37,6 +37,16 @@ def shared_containers(module):
     return out
 
 
+def is_constant_key(node):
+    if isinstance(node, ast.Constant):
+        return True
+    if isinstance(node, ast.Tuple):
+        return all(is_constant_key(e) for e in node.elts)
+    if isinstance(node, ast.UnaryOp) and isinstance(node.operand, ast.Constant):
+        return True
+    return False
+
+
 def none_test(test):
     """`X is None` -> (X, True) ; `X is not None` -> (X, False) ; else None"""
     if isinstance(test, ast.Compare) and len(test.ops) == 1 and isinstance(test.left, ast.Name) \
@@ -327,7 +337,9 @@ class FnTags(object):
             for t in s.targets:
                 if isinstance(t, ast.Subscript):
                     self.sites.append((s, unparse(t.value), self.tags(t.value, env)))
-                    if isinstance(t.value, ast.Name) and t.value.id in self.shared and env.lookup(t.value.id) is None:
+                    if isinstance(t.value, ast.Name) and t.value.id in self.shared and env.lookup(t.value.id) is None \
+                            and not is_constant_key(t.slice):
+                        # (a store under a constant key is a settings cell - `_TRACE[0] = bool(on)` - not a memo table)
                         self.memo_stores.append((s, t.value.id, t.slice, s.value, env.copy()))
                 else:
                     self.assign(t, s.value, env)
